@@ -899,4 +899,29 @@ theorem step_of_empty_run (w : World) (u : User) (c : Cmd) (crash : Option Nat)
     rw [this]
     exact ⟨hdb, hdirs, ht⟩
 
+/-- the files after a command are its (possibly cut) trace replayed on the files before -/
+theorem stepG_db_trace (w : World) (h : DbInv w.db) (c : WCmd) :
+    (stepG true w c).w.db = (stepG true w c).trace.foldl (fun c e => applyDb e c) w.db := by
+  cases c with
+  | rmCache u s f => rfl
+  | run u c crash =>
+    simp only [stepG]
+    obtain ⟨hdb, _, _⟩ := load_db w u c.self
+    generalize load w u c.self = l at hdb
+    obtain ⟨m, fl, w1⟩ := l
+    dsimp only at hdb ⊢
+    have hrep : ∀ (es : List Eff) (last : Option Eff),
+        (replay true u (w1, m) es last).db = (es ++ last.toList).foldl (fun c e => applyDb e c) w.db := by
+      intro es last
+      unfold replay
+      have h1 := foldl_applyW_db_eq true u es (w1, m) (by dsimp only; rw [hdb]; exact h)
+      dsimp only at h1
+      cases last with
+      | none => simp only [Option.toList_none, List.append_nil]; rw [h1, hdb]
+      | some e =>
+        dsimp only
+        rw [applyDbW_db_eq _ _ (by rw [h1, hdb]; exact (DbInv.foldl h es).nd), h1, hdb]
+        simp [List.foldl_append]
+    exact hrep _ _
+
 end EupsModel.Cache
